@@ -572,6 +572,66 @@ fn raw_injection(rep: &mut Report) {
 
 /// I/O faults at the bridge's own port: a read failure must surface without touching the bus; a failure while writing
 /// the reply back must surface too (the bus replied, so "no frame written and Ok" would be a silent loss).
+/// A bus that answers whatever it likes: the bridge is a bridge over ANY bus, and writes back a frame exactly when the
+/// bus replied — also when the request was a data chunk, a count, a goodbye or an unknown frame, and also when a bus
+/// stays silent after a hello. Every (request kind x reply kind or none) pair, one pump each.
+struct Talker {
+    saw: Vec<RefMsg>,
+    reply: Option<RefMsg>,
+}
+
+impl flipdot_core::SignBus for Talker {
+    fn process_message<'a>(&mut self, message: flipdot_core::Message<'_>) -> Result<Option<flipdot_core::Message<'a>>, Box<dyn std::error::Error + Send + Sync>> {
+        self.saw.push(refs::to_ref(&message));
+        Ok(self.reply.as_ref().map(refs::from_ref))
+    }
+}
+
+fn bridge_over_a_talkative_bus(rep: &mut Report) {
+    use crate::doubles::{FragReader, FragWriter, WriteAct};
+    let mut requests = vec![RefMsg::Hello(3), RefMsg::Query(0xFFFF), RefMsg::Goodbye(3), RefMsg::Complete(0x100), RefMsg::Count(0), RefMsg::Count(0x0411), RefMsg::Report(3, S_SHOWN), RefMsg::Ack(3, O_RECV_PIX)];
+    requests.extend((0..N_OPS).map(|o| RefMsg::Request(3, o)));
+    for n in [0usize, 1, 2, 16, 255] {
+        requests.push(RefMsg::Data { offset: 0x0203, data: vec![0x02; n] });
+        requests.push(RefMsg::Unknown { addr: 0x0302, ty: 0x7E, data: vec![0x03; n] });
+    }
+    for ty in [1u8, 6, 7, 9, 0x80, 0xFF] {
+        requests.push(RefMsg::Unknown { addr: 3, ty, data: vec![0x0F] });
+    }
+    let replies: Vec<Option<RefMsg>> = vec![None, Some(RefMsg::Report(3, S_UNCONF)), Some(RefMsg::Report(0x0302, S_LOAD_PROG)), Some(RefMsg::Ack(3, O_RECV_CFG)), Some(RefMsg::Data { offset: 16, data: vec![0xA5; 16] }), Some(RefMsg::Unknown { addr: 0xFFFF, ty: 0xFF, data: vec![0xFF; 255] }), Some(RefMsg::Hello(3)), Some(RefMsg::Count(2))];
+    for req in &requests {
+        for reply in &replies {
+            let sig = format!("talkative|{}|{}", req.show().chars().take(40).collect::<String>(), reply.as_ref().map(|r| r.show().chars().take(40).collect::<String>()).unwrap_or("-".into()));
+            rep.case(Some(fnv(sig.as_bytes())));
+            let bus = Rc::new(RefCell::new(Talker { saw: vec![], reply: reply.clone() }));
+            let st = doubles::shared(doubles::WEIRD_SETTINGS);
+            let port = InstrPort::scripted(st.clone(), FragReader::plain(refs::wire(req)), FragWriter::new(vec![], WriteAct::Accept(usize::MAX)));
+            let Ok(mut odk) = Odk::try_new(port, SharedBus(bus.clone())) else {
+                rep.note("measure_error/talkative", J::s("odk setup failed"));
+                continue;
+            };
+            st.borrow_mut().written.clear();
+            let r = catch(|| odk.process_message().map_err(|e| format!("{:?}", e).chars().take(80).collect::<String>()));
+            rep.count("bridge_pumps_over_a_talkative_bus");
+            let want = reply.as_ref().map(refs::wire).unwrap_or_default();
+            let saw = bus.borrow().saw.clone();
+            let mut bad = vec![];
+            if !matches!(&r, Ok(Ok(()))) {
+                bad.push(format!("the pump returned {:?}", r.as_ref().map_err(|p| p.msg.clone())));
+            }
+            if saw != vec![req.clone()] {
+                bad.push(format!("the bus saw [{}], the line was {}", saw.iter().map(|m| m.show()).collect::<Vec<_>>().join(" "), req.show()));
+            }
+            if st.borrow().written != want {
+                bad.push(format!("[{}] was written back, the bus replied [{}]", show_bytes(&st.borrow().written), show_bytes(&want)));
+            }
+            if let Some(b) = bad.first() {
+                rep.violation(MON_B, "bridge_reply_not_what_the_bus_said", &sig, format!("bridge over a bus that answers {} to {}: {}", reply.as_ref().map(|r| r.show()).unwrap_or("nothing".into()), req.show(), b), J::obj(vec![("request", J::s(req.show())), ("bus_reply", J::s(reply.as_ref().map(|r| r.show()).unwrap_or("none".into()))), ("observed", J::s(b.clone()))]));
+            }
+        }
+    }
+}
+
 fn bridge_faults(rep: &mut Report) {
     use crate::doubles::{FragReader, FragWriter, ReadFault, WriteAct};
     let requests = [RefMsg::Hello(3), RefMsg::Query(3), RefMsg::Request(3, O_RECV_CFG), RefMsg::Goodbye(3)];
@@ -652,6 +712,7 @@ pub fn run(ctx: &Ctx) -> Outcome {
         if i == n {
             raw_injection(rep);
             bridge_faults(rep);
+            bridge_over_a_talkative_bus(rep);
             marathon(rep);
         } else {
             scenario(ctx, i as u64, rep);
@@ -670,6 +731,7 @@ pub fn run(ctx: &Ctx) -> Outcome {
         floor("undecodable lines at the bridge", report.get("bridge_undecodable_lines") > 100, report.get("bridge_undecodable_lines")),
         floor("I/O faults at the bridge's own port (read fault at every byte, write fault at every call)", report.get("bridge_read_faults") > 100 && report.get("bridge_write_faults") > 50, report.get("bridge_write_faults")),
         floor("scenarios over a line whose writes block longer than the pacing pause", report.get("scenarios_over_a_slow_line") >= 20, report.get("scenarios_over_a_slow_line")),
+        floor("the bridge over a bus that answers anything (30 request kinds x 8 replies or none): what is written back is what the bus said", report.get("bridge_pumps_over_a_talkative_bus") == 30 * 8, report.get("bridge_pumps_over_a_talkative_bus")),
         floor("raw frames of every data length 0..=255 over both paths in one scenario", report.get("raw_frames_of_every_length_over_the_wire") == 1 && report.get("raw_messages_on_both_paths") >= 256 * 5 + 70, format!("{} scenario, {} raw messages in all", report.get("raw_frames_of_every_length_over_the_wire"), report.get("raw_messages_on_both_paths"))),
         floor("a transfer of 300 data chunks in a row over the wire", report.get("long_transfers_over_the_wire") == 1 && report.get("long_transfers_that_succeeded_on_both_paths") == 1, format!("{} / {} succeeded on both paths", report.get("long_transfers_over_the_wire"), report.get("long_transfers_that_succeeded_on_both_paths"))),
         floor("70 000 messages through one serial bus and one bridge", report.get("marathon_messages_on_both_paths") == 70_000, report.get("marathon_messages_on_both_paths")),
